@@ -23,6 +23,12 @@ def _n(t, env, wide):
         name = t[1]
         if name.startswith("core::num::<impl u8>::wrapping_add"):
             return ("wadd", frozenset([_n(t[2][0], env, wide), _n(t[2][1], env, wide)])) if _n(t[2][0], env, wide) != _n(t[2][1], env, wide) else ("wadd2", _n(t[2][0], env, wide))
+        if "std::ops::BitXor" in name and name.endswith("::bitxor") and len(t[2]) == 2:
+            return ("xor", frozenset([_n(t[2][0], env, wide), _n(t[2][1], env, wide)]))
+        if "std::ops::BitOr" in name and name.endswith("::bitor") and len(t[2]) == 2:
+            return ("or", frozenset([_n(t[2][0], env, wide), _n(t[2][1], env, wide)]))
+        if "std::ops::BitAnd" in name and name.endswith("::bitand") and len(t[2]) == 2:
+            return ("and", frozenset([_n(t[2][0], env, wide), _n(t[2][1], env, wide)]))
         if name.startswith("core::num::<impl u8>::wrapping_sub"):
             return ("wsub", _n(t[2][0], env, wide), _n(t[2][1], env, wide))
         if name in WIDEN_INTO or name.startswith("std::convert::num::<impl std::convert::From<u") or name.startswith("core::convert::num::<impl std::convert::From<u"):
@@ -94,6 +100,9 @@ def _n(t, env, wide):
             return ("upd", _n(t[1], env, wide), ("int", e[1]), _n(t[3], env, wide))
     if k == "agg" and t[1] == "array":
         return ("arr", tuple(_n(x, env, wide) for x in t[4]))
+    if k == "field" and t[2] == 0 and t[1][0] == "downcast" and t[1][2] == 1 and is_call(t[1][1]) and t[1][1][1].endswith("<impl [T]>::get") and len(t[1][1][2]) == 2 and t[1][1][2][1][0] != "agg":
+        # the payload of `s.get(i)` when it is Some: the element s[i]
+        return ("idx", _n(t[1][1][2][0], env, wide), _n(t[1][1][2][1], env, wide))
     if k == "field":
         return ("fld", _n(t[1], env, wide), t[2])
     if k == "param":
